@@ -1225,7 +1225,7 @@ impl Prop for C15 {
     fn case_count(&self, tier: Tier) -> u64 {
         match tier {
             Tier::Quick => 600,
-            Tier::Thorough => 12000,
+            Tier::Thorough => 10000,
         }
     }
     fn fixed_cases(&self, _tier: Tier) -> Vec<Case> {
